@@ -150,12 +150,26 @@ FinalizeOutcome(r, hc, th, np) ==
 (* x86 only: the AArch64 back end has no operand validator (a64instapi.cpp validate() accepts everything).        *)
 VirtRule(k, r, vr) == (IsInst(k) /\ cfg.em = "builder" /\ cfg.arch # "a64" /\ cfg.vi /\ vr = 1) => r # 0
 
-Call(k, r, hc, th, osin, np, nos, vr, sh) ==
+(* Operand fields outside their DOCUMENTED range: the 3-bit segment field of an x86 memory operand holds 7 (SReg ids   *)
+(* are 0..6, x86operand.h) or its 3-bit broadcast field holds 7 (Broadcast is kNone..k1To64 = 0..6).  With strict       *)
+(* validation on (Assembler: kValidateAssembler; Builder/Compiler: kValidateIntermediate) such a request denotes no      *)
+(* instruction of the ISA and must be refused.  fr = 1 iff the request carries such a field.                             *)
+ValidationOn == IF cfg.em = "asm" THEN cfg.va ELSE cfg.vi
+FieldsInDocumentedRange(k, r, fr) == (IsInst(k) /\ cfg.arch # "a64" /\ ValidationOn /\ fr = 1) => r # 0
+
+(* Fast path = Assembler without logger and without diagnostic options.  tw = what the SAME request returned in the    *)
+(* twin execution (same seed, same calls, logger attached = slow path, no validation either).  Loggers and options are *)
+(* documented not to change what is valid: accepted / refused must agree.                                               *)
+FastSlowAgree(k, r, tw) == (IsInst(k) /\ cfg.fast) => ((r = 0) <=> (tw = 0))
+
+Call(k, r, hc, th, osin, np, nos, vr, sh, fr, tw) ==
   /\ IF k = "finalize" THEN FinalizeOutcome(r, hc, th, np)
      ELSE IF r = 0 THEN OkOutcome(k, hc, th, np)
      ELSE ErrOutcome(k, r, hc, th, osin, np, nos)
   /\ FixupsWellFormed(np)
   /\ VirtRule(k, r, vr)
+  /\ FieldsInDocumentedRange(k, r, fr)
+  /\ FastSlowAgree(k, r, tw)
   /\ proj' = np
   /\ os' = nos
   /\ pend' = IF IsInst(k) /\ r = 0 /\ sh # 0 /\ pend = 0 THEN sh ELSE pend
@@ -185,5 +199,5 @@ Finish(used, ref, cmp, np, nos) ==
   /\ UNCHANGED <<cfg, pend>>
 
 CInit == proj = EmptyProj /\ os = OsClear /\ pend = 0
-         /\ cfg = [arch |-> "x64", em |-> "asm", hk |-> "none", att |-> TRUE, vi |-> TRUE]
+         /\ cfg = [arch |-> "x64", em |-> "asm", hk |-> "none", att |-> TRUE, vi |-> TRUE, va |-> TRUE, fast |-> FALSE]
 =============================================================================
